@@ -4,6 +4,7 @@ go 1.26
 
 require (
 	github.com/anishathalye/porcupine v1.3.0
+	github.com/benbjohnson/clock v1.3.0
 	github.com/bio-routing/bio-rd v0.0.0
 	verif.local/simrt v0.0.0
 )
@@ -12,6 +13,8 @@ require (
 	github.com/bio-routing/tflow2 v0.0.0-20181230153523-2e308a4a3c3a // indirect
 	github.com/golang/protobuf v1.5.3 // indirect
 	github.com/sirupsen/logrus v1.6.0 // indirect
+	github.com/vishvananda/netlink v1.0.0 // indirect
+	github.com/vishvananda/netns v0.0.0-20180720170159-13995c7128cc // indirect
 	go.uber.org/atomic v1.7.0 // indirect
 	go.uber.org/multierr v1.6.0 // indirect
 	go.uber.org/zap v1.24.0 // indirect
